@@ -42,6 +42,8 @@ def name_forms(path):
     forms.add(path)
     p = strip_generics(path)
     forms.add(p)
+    if "r#" in p:
+        forms.add(p.replace("r#", ""))
     m = _IMPL_RE.match(path)
     if m:
         selfty, trait, meth = m.group(1), m.group(2), m.group(3)
@@ -68,6 +70,11 @@ def short(path):
         st = m.group(3).split("::")[-1]
         amp = "&" if m.group(3).startswith("&") else ""
         return "<%s%s as %s>::%s%s" % (amp, st, tr, m.group(4), m.group(5))
+    m = re.match(r"^<(.+) as (.+)>::(.+)$", p)
+    if m:
+        a = m.group(1)
+        amp = "&" if a.startswith("&") else ""
+        return "<%s%s as %s>::%s" % (amp, a.split("::")[-1], m.group(2).split("::")[-1], m.group(3))
     segs = p.split("::")
     return "::".join(segs[-2:]) if len(segs) >= 2 else p
 
